@@ -695,3 +695,19 @@ Qed.
 Lemma liq_part_spelled featured fee :
   liq_part featured fee = (if featured then (fee + 7) / 8 else (fee + 4) / 5) /\ liq_part featured fee <= fee.
 Proof. split; [ reflexivity | apply liq_part_le ]. Qed.
+(* ---------- histories: nothing is created or lost, whatever is called ---------- *)
+Definition world_run (vr : variant) (s : vstate) (b : bal) (steps : list sstep) : vstate * bal :=
+  fold_left (fun sb st => world_apply vr (fst sb) (snd sb) st) steps (s, b).
+
+Lemma world_apply_total vr s b st d : total (snd (world_apply vr s b st)) d = total b d.
+Proof.
+  unfold world_apply. destruct (world_step vr s b st) as [[[s' b'] ms]|] eqn:H; [ | reflexivity ].
+  cbn [snd]. destruct (world_step_balances _ _ _ _ _ _ _ H) as (_ & _ & _ & Ht). apply Ht.
+Qed.
+
+Theorem world_run_total steps : forall vr s b d, total (snd (world_run vr s b steps)) d = total b d.
+Proof.
+  unfold world_run. induction steps as [|st r IH]; intros vr s b d; cbn [fold_left fst snd]; [ reflexivity | ].
+  destruct (world_apply vr s b st) as [s1 b1] eqn:E.
+  rewrite IH. pose proof (world_apply_total vr s b st d) as T. rewrite E in T. exact T.
+Qed.
